@@ -160,7 +160,7 @@ class SimNet:
                 s.id = self.next_id
                 self.next_id += 1
                 s.data = data
-                s.src = ("203.0.113.%d" % (9 + self.ch.choose(2)), 1000 + self.ch.choose(3))
+                s.src = self.spoofed_source(d.src)
                 s.dst = dst
                 s.sent_at = now
                 s.fate = "spoof"
@@ -172,6 +172,27 @@ class SimNet:
                 self.sig.update(b"sp;")
                 loop.log("spoof", transport.index, len(data))
                 heapq.heappush(self.heap, (now + base * self.ch.choose(9) / 4.0, next(self.seq), s))
+
+    def spoofed_source(self, src):
+        """an address the sender does not own: another host, or the same host with another
+        port (sharing the high byte of the port or not), or another host with the same port"""
+        host, port = src
+        kind = self.ch.choose(4)
+        if kind == 0:
+            cand = ("203.0.113.%d" % (9 + self.ch.choose(2)), 1000 + self.ch.choose(3))
+        elif kind == 1:  # same host, port differs in the low byte only
+            low = (port + 1, port - 1, port + 17, port - 17, port ^ 0x0F, port ^ 0xFF, port ^ 0x80)[self.ch.choose(7)]
+            cand = (host, (port & 0xFF00) | (low & 0xFF))
+        elif kind == 2:  # same host, port differs in the high byte (low byte kept or not)
+            cand = (host, (port ^ 0x0100, (port + 256) & 0xFFFF, port ^ 0x8000, (port ^ 0x0300) + 1)[self.ch.choose(4)] & 0xFFFF)
+        else:  # other host, same port
+            cand = ("203.0.113.%d" % (9 + self.ch.choose(2)), port)
+        self.loop.probes["spoof_source:" + ("other-host", "same-host-port-low-byte", "same-host-port-high-byte",
+                                             "other-host-same-port")[kind]] += 1
+        if cand == src or cand in self.bound or cand[1] == 0:
+            # never impersonate an endpoint that exists (its traffic must stay genuine)
+            cand = ("203.0.113.%d" % (9 + self.ch.choose(2)), 1000 + self.ch.choose(3))
+        return cand
 
     # -- arrival
     def next_arrival(self):
